@@ -473,6 +473,18 @@ def c11_builder(repo, report, tier):
             continue
         report.saw(function="cli.make_pipeline_from_args", file="src/cutadapt/cli.py", paths=sum(len(b.rows) for b in m.blocks))
         mixed_stage_obligation(repo, report, "C11.R4", m, mode)
+        # only the quality-based filters may depend on the input format (FASTA input = FASTQ input without qualities)
+        QUALITY_FILTERS = {"TooManyExpectedErrors", "TooHighAverageErrorRate"}
+        fmt_dep = []
+        for e in entries:
+            atoms = [k for k in e["val"] if "input_file_format" in k]
+            if atoms and not (set(e["preds"]) and set(e["preds"]) <= QUALITY_FILTERS):
+                item = {"step": e["slot"].key[:80], "depends_on": atoms[:2]}
+                if item not in fmt_dep:
+                    fmt_dep.append(item)
+        report.ob("C11.R4", f"{mode}:only quality-based filters depend on the input format", not fmt_dep, facts={"problems": fmt_dep[:3]},
+                  expected="--max-ee / --max-aer may be skipped for FASTA input; every other filter is built for FASTA and FASTQ alike", loc="src/cutadapt/cli.py",
+                  why=(f"{fmt_dep[0]['step']} is built only for some input formats: the same reads are filtered differently as FASTA and as FASTQ" if fmt_dep else ""))
         report.floor("C11.R1", f"step slot kinds ({mode})", len({(e["stage"], e["inner"]) for e in entries}), 12)
         # order
         conflicts = {}
